@@ -393,6 +393,25 @@ func system(sc scenario) *world.System {
 	}
 }
 
+// ScopeSystems are the namespaced-template systems whose sources or targets leave the template's
+// namespace or are cluster-scoped (used by C11 for its ObjectTemplate clause).
+func ScopeSystems(quick bool) []*world.System {
+	scs := []scenario{
+		{Templates: []string{"ok", "foreignns", "clusterkind", "clusterkindns"}, Sources: "normal", Edits: 2},
+		{Templates: []string{"ok"}, Sources: "cluster-kind-in-ns", Edits: 2},
+		{Templates: []string{"ok"}, Sources: "foreign-ns", Edits: 2},
+		{Templates: []string{"ok"}, Sources: "cluster-kind", Edits: 2},
+	}
+	if !quick {
+		scs = append(scs, scenario{Templates: []string{"ok", "foreignns", "clusterkind"}, Sources: "cluster-kind", Edits: 3, Restarts: 1, Faults: 1})
+	}
+	var out []*world.System
+	for _, sc := range scs {
+		out = append(out, system(sc))
+	}
+	return out
+}
+
 func scenarios(quick bool) []scenario {
 	out := []scenario{
 		{Templates: []string{"ok", "noparse", "foreignns", "clusterkind", "clusterkindns", "missingkey"}, Sources: "normal", Edits: 3, Restarts: 1},
